@@ -333,3 +333,6 @@ def run(ctx):
         from rules import C03 as _c03, C16 as _c16
         _c16.run(shared.Proxy(ctx, ("C16-a",), "C02-g"))
         _c03.run(shared.Proxy(ctx, ("C03-trl",), "C02-d"))
+        # a frame reader's error (truncated frame, malformed frame) reaches the error table from every place that reads frames
+        # off a request stream: the Err rows of the C03 dispatch tables
+        _c03.run(shared.Proxy(ctx, ("C03-srv", "C03-cli", "C03-body"), "C02-e", constructs=("Err ->", "Err and None rows")))
